@@ -248,12 +248,32 @@ pub fn run_component(report: &Report, tier: &Tier, share: f64) {
 pub fn run(report: &Report, tier: &Tier) {
     report.set_rule(
         "component part: every TTL 1..=600 (thorough: ..=3000) and {4500, 7200, 65535, 86400, 2^24, 2^31, 2^32-1} x observation \
-         modes {exactly at marks, +-1 ms around every boundary, coarse steps that skip marks, dense random with fresh copies}; \
-         distinct by (ttl, mode)",
+         modes {exactly at marks, +-1 ms around every boundary, coarse steps that skip marks, dense random with fresh copies}; world part: \
+         L2 browser scenarios (TTLs {2,3,10,30,120} s, responders answering never/always/sometimes) with every refresh mark of every needed \
+         record checked on the wire; L3 two address records of one host, the second with the cache-flush bit arriving 0..2000 ms later \
+         (every ms between 900 and 1100), same or other interface, with burst companions; L1 hostname scenarios under late wake-ups \
+         (up to 0.8 / 3 s); distinct by (ttl, mode) / scenario shape / (delta, topology)",
     );
     report.assume("TTL <= 1 (goodbye records) carries no refresh obligation (both behaviours accepted)");
-    for r in ["L1a", "L2a", "K-half"] {
-        report.floor(r, 1000);
+    report.assume("L3 is lenient for ages of 999..1001 ms");
+    for r in ["L1a", "L2a", "K-half", "L1", "L2", "L3"] {
+        report.floor(r, 100);
     }
-    run_component(report, tier, 1.0);
+    run_component(report, tier, 0.25);
+    let seed = report.seed;
+    // L3 sweep
+    let deltas: Vec<u64> = (0..900).step_by(50).chain(900..=1100).chain((1150..=2000).step_by(50)).collect();
+    let reps: u64 = if tier.thorough { 40 } else { 3 };
+    let n = deltas.len() as u64 * reps;
+    run_parallel(report, n, threads(), tier.budget_s * 0.2, |i, l| {
+        crate::props::c11w::l3_case(deltas[(i % deltas.len() as u64) as usize], util::mix(seed, 0xC11_3000 + i), l);
+    });
+    let n: u64 = if tier.thorough { 60_000 } else { 1_500 };
+    run_parallel(report, n, threads(), tier.budget_s * 0.3, |i, l| {
+        crate::props::c11w::l2_case(util::mix(seed, 0xC11_2000 + i), l);
+    });
+    let n: u64 = if tier.thorough { 60_000 } else { 1_500 };
+    run_parallel(report, n, threads(), tier.budget_s * 0.25, |i, l| {
+        crate::props::c11w::l1_case(util::mix(seed, 0xC11_1000 + i), l);
+    });
 }
